@@ -129,7 +129,7 @@ Compression Type,) Key Value { Key Material } (KeyValue.write l.3989-4003: the s
 [Cryptographic Algorithm], [Cryptographic Length], [Key Wrapping Data] -/
 def encKeyBlock (format : Nat) (value : Bytes) (alg len : Option Nat) (kwd : List TItem) : TItem :=
   .struct T.keyBlock ([enm T.keyFormatType format, .struct T.keyValue [byt T.keyMaterial value]]
-    ++ optL alg (enm T.cryptographicAlgorithm) ++ optL len (fun l => int T.cryptographicLength (l : Int)) ++ kwd)
+    ++ optL alg (enm T.cryptographicAlgorithm) ++ optL len (fun (l : Nat) => int T.cryptographicLength (Int.ofNat l)) ++ kwd)
 
 /-- the `secret` of a Get response (engine.py `_build_core_object` l.477-555, secrets.py) -/
 def encSecret (otype : Nat) (value : Bytes) (alg len format subtype : Option Nat) (wrapped : Bool)
@@ -319,7 +319,7 @@ def tattrInRange (a : TAttr) : Bool := avalInRange a.name a.value && optAll i32 
 def dataInRange : Data → Bool
   | .uidAttr _ a => optAll tattrInRange a
   | .object otype _ _ alg len format subtype _ =>
-    u32 otype && optAll u32 alg && optAll (fun l => i32 (l : Int)) len && optAll u32 format && optAll u32 subtype
+    u32 otype && optAll u32 alg && optAll (fun (l : Nat) => i32 (Int.ofNat l)) len && optAll u32 format && optAll u32 subtype
   | .attrs _ as => as.all tattrInRange
   | .ops os _ => os.all u32
   | .versions vs => vs.all (fun v => decide (v < 21474836480))
@@ -347,16 +347,20 @@ def responseInRange (ver : Nat) (now : Int) (extras : List (List TItem)) (res : 
 
 /-! ### version gating (C16), as an executable predicate on message trees -/
 
-/-- elements of a message that exist only in some protocol versions: tag, first version, first version WITHOUT.
-Attributes (the 2.0 container), Attribute Reference, Authenticated Encryption Tag, Sensitive are introduced later
-than 1.0; Template Attribute and Operation Policy Name are removed in 2.0; Located Items exists from 1.3 on. -/
-def gatedTags : List (Nat × Nat × Nat) :=
-  [(T.attributes_, 20, 1000), (T.attributeReference, 20, 1000), (T.authenticatedEncryptionTag, 14, 1000),
-   (T.sensitive_, 14, 1000), (T.locatedItems, 13, 1000), (T.templateAttribute, 0, 20), (T.operationPolicyName, 0, 20)]
+/-- elements of a message that exist only in some protocol versions: tag, first version WITH the element, first
+version WITHOUT it again (`none`: never removed).  Attributes (the 2.0 container), Attribute Reference, Authenticated
+Encryption Tag, Sensitive are introduced later than 1.0; Located Items exists from 1.3 on; Template Attribute and
+Operation Policy Name are removed in 2.0. -/
+def gatedTags : List (Nat × Nat × Option Nat) :=
+  [(T.attributes_, 20, none), (T.attributeReference, 20, none), (T.authenticatedEncryptionTag, 14, none),
+   (T.sensitive_, 14, none), (T.locatedItems, 13, none), (T.templateAttribute, 10, some 20),
+   (T.operationPolicyName, 10, some 20)]
+
+def gateOpen (ver : Nat) (g : Nat × Nat × Option Nat) : Bool :=
+  decide (g.2.1 ≤ ver) && (match g.2.2 with | some hi => decide (ver < hi) | none => true)
 
 /-- may an element tagged `t` be sent under protocol version `ver`? -/
-def tagAllowed (ver t : Nat) : Bool :=
-  gatedTags.all (fun g => !(g.1 == t) || (decide (g.2.1 ≤ ver) && decide (ver < g.2.2)))
+def tagAllowed (ver t : Nat) : Bool := gatedTags.all (fun g => !(g.1 == t) || gateOpen ver g)
 
 mutual
 /-- the gated elements present in a tree although the version excludes them -/
